@@ -52,7 +52,7 @@ static void run_shape (const shape_t *sh, int variant, int leaf, long k, int mod
   object_t *m = hx_load ("/c05/m.c", text);
   if (!m) {
     snprintf (res->err, sizeof res->err, "shape does not compile: %.80s", hx_last_error);
-    if (!measuring) vx_fail ("C05:harness:shape-does-not-compile", "%s: %s", vm_ctx_desc, hx_last_error);
+    if (!measuring) vm_fail ("C05:harness:shape-does-not-compile", "%s: %s", vm_ctx_desc, hx_last_error);
     return;
   }
   add_ref (m, "harness");
@@ -94,32 +94,34 @@ static void run_shape (const shape_t *sh, int variant, int leaf, long k, int mod
       if (vm_master_int ("query_error_caught", 1) != 1) continue;
       push_number (i);
       char want[300], *t = vm_master_text ("query_error_text", 1);
+      /* limit errors are refused by catch by design (C04): do_catch re-raises "*Can't catch ..." instead */
+      if (!strncmp (t, "*Too long evaluation", 20) || !strncmp (t, "***Too deep recursion", 21) || !strncmp (t, "***Stack overflow", 17)) continue;
       svalue_t sv; sv.type = T_STRING; sv.subtype = STRING_CONSTANT; sv.u.string = t;
       snprintf (want, sizeof want, "%s", hx_canon_s (&sv));
       while (ci < vm_ncval && vm_cval[ci][0] != '"') ci++;          /* thrown non-string values are not logged */
       if (ci >= vm_ncval) {
-        if (vm_ncval < VM_MAXCVAL) vx_fail ("C05:catch:raised-error-not-yielded", "error %.120s was raised inside a catch but no catch yielded it [%s]", want, vm_ctx_desc);
+        if (vm_ncval < VM_MAXCVAL) vm_fail ("C05:catch:raised-error-not-yielded", "error %.120s was raised inside a catch but no catch yielded it [%s]", want, vm_ctx_desc);
         break;
       }
       if (strncmp (want, vm_cval[ci], sizeof vm_cval[0] - 2))
-        vx_fail ("C05:catch:wrong-value", "catch yielded %.150s, the error raised was %.150s [%s]", vm_cval[ci], want, vm_ctx_desc);
+        vm_fail ("C05:catch:wrong-value", "catch yielded %.150s, the error raised was %.150s [%s]", vm_cval[ci], want, vm_ctx_desc);
       ci++;
     }
     if (k > 0) {
-      if (!vm_fired) vx_fail ("C05:harness:fault-not-reached", "dispatch %ld was never reached (%ld executed) [%s]", k, vm_insn, vm_ctx_desc);
+      if (!vm_fired) vm_fail ("C05:harness:fault-not-reached", "dispatch %ld was never reached (%ld executed) [%s]", k, vm_insn, vm_ctx_desc);
       else {
         vx_count (0, 1);
         switch (vm_fault_ctx) {
         case VM_CTX_DRIVER:
           vx_count (2, 1);
-          if (r) vx_fail ("C05:driver:error-not-delivered", "the uncaught fault did not end the evaluation: returned %.200s [%s]", rtext, vm_ctx_desc);
+          if (r) vm_fail ("C05:driver:error-not-delivered", "the uncaught fault did not end the evaluation: returned %.200s [%s]", rtext, vm_ctx_desc);
           else if (strcmp (etext, vm_expected_driver_text ()))
-            vx_fail ("C05:driver:wrong-error-text", "driver received \"%.150s\", expected \"%.80s\" [%s]", etext, vm_expected_driver_text (), vm_ctx_desc);
+            vm_fail ("C05:driver:wrong-error-text", "driver received \"%.150s\", expected \"%.80s\" [%s]", etext, vm_expected_driver_text (), vm_ctx_desc);
           break;
         case VM_CTX_CATCH:
           vx_count (1, 1);
-          if (!vm_expect_done) vx_fail ("C05:catch:did-not-resume", "control never came back to the catch that had to receive the fault (result %.150s %.100s) [%s]", rtext, etext, vm_ctx_desc);
-          else if (!r) vx_fail ("C05:catch:later-error", "after the fault was caught the evaluation ended with \"%.150s\" [%s]", etext, vm_ctx_desc);
+          if (!vm_expect_done) vm_fail ("C05:catch:did-not-resume", "control never came back to the catch that had to receive the fault (result %.150s %.100s) [%s]", rtext, etext, vm_ctx_desc);
+          else if (!r) vm_fail ("C05:catch:later-error", "after the fault was caught the evaluation ended with \"%.150s\" [%s]", etext, vm_ctx_desc);
           break;
         default:
           vx_count (3, 1);
@@ -142,14 +144,16 @@ static void run_shape (const shape_t *sh, int variant, int leaf, long k, int mod
     if (measuring) snprintf (res->err, sizeof res->err, "probe differs after fault-free run at '%s'", tag);
     else {
       snprintf (key, sizeof key, "C05:probe:%s", tag);
-      vx_fail (key, "probe transcript differs from a fresh driver: %s [%s]", msg, vm_ctx_desc);
+      vm_fail (key, "probe transcript differs from a fresh driver: %s [%s]", msg, vm_ctx_desc);
       vx_obs ("!! probe: %s", pt);
     }
   }
 }
 
 /* ------------------------------------------------------------------ enumeration */
+static int single, single_v, single_leaf; static long single_k;
 static void decode (long idx, long *s, int *v, long *k, int *leaf) {
+  if (single) { *s = 0; *v = single_v; *k = single_k; *leaf = single_leaf; return; }
   if (part_sites) {
     long per = 2L * nleafset;
     *s = idx / per; *v = (int) ((idx % per) / nleafset); *leaf = leafset[idx % nleafset]; *k = 0;
@@ -161,7 +165,13 @@ static void decode (long idx, long *s, int *v, long *k, int *leaf) {
 }
 
 static void elem1 (long idx);
-static void elem (long idx) { vm_run_isolated (elem1, idx); }
+static void elem (long idx) {
+  long s, k; int v, leaf; char name[300];
+  decode (idx, &s, &v, &k, &leaf);
+  vm_shape_name (shapes[s].k, shapes[s].depth, name, sizeof name);
+  snprintf (vm_ctx_desc, sizeof vm_ctx_desc, "shape %s leaf=%s %s k=%ld", name, vm_leaf_names[leaf], v ? "under-catch" : "uncaught", k);
+  vm_run_isolated (elem1, idx);
+}
 static void elem1 (long idx) {
   long s, k; int v, leaf; result_t r;
   decode (idx, &s, &v, &k, &leaf);
@@ -173,8 +183,10 @@ static void describe (long idx, char *buf, size_t len) {
   decode (idx, &s, &v, &k, &leaf);
   vm_shape_name (shapes[s].k, shapes[s].depth, name, sizeof name);
   vm_shape_text (shapes[s].k, shapes[s].depth, leaf, text, sizeof text);
-  snprintf (buf, len, "shape=%s leaf=%s variant=%s k=%ld of %d mode=%s entry=%s\n%s", name, vm_leaf_names[leaf], v ? "under-catch" : "uncaught", k,
-            part_sites ? 0 : meas[s].n[v], inj_mode == VM_INJ_THROW ? "throw" : "error", v ? "run_c" : "run_u", text);
+  snprintf (buf, len, "elem=%s/%c/%ld/%d/%s\nshape=%s leaf=%s variant=%s k=%ld of %d mode=%s entry=%s\n%s", name[0] ? name : "-", v ? 'c' : 'u', k, leaf,
+            inj_mode == VM_INJ_THROW ? "throw" : inj_mode == VM_INJ_ERROR ? "error" : "none",
+            name, vm_leaf_names[leaf], v ? "under-catch" : "uncaught", k,
+            meas[s].n[v], inj_mode == VM_INJ_THROW ? "throw" : "error", v ? "run_c" : "run_u", text);
 }
 
 /* ------------------------------------------------------------------ set-up */
@@ -243,7 +255,7 @@ int main (int argc, char **argv) {
   const char *part = vx_opt ("part", "inject");
   part_sites = !strcmp (part, "sites");
   if (!strcmp (vx_opt ("mode", "error"), "throw")) inj_mode = VM_INJ_THROW;
-  if (part_sites) { inj_mode = VM_INJ_NONE; parse_set (vx_opt ("leaves", "all"), leafset, &nleafset, vm_nleaves, 0);
+  if (part_sites) { inj_mode = VM_INJ_NONE; vm_noinj_name = "genuine-error"; parse_set (vx_opt ("leaves", "all"), leafset, &nleafset, vm_nleaves, 0);
     /* leaf 0 is the ordinary leaf: not an error site */
     int j = 0; for (int i = 0; i < nleafset; i++) if (leafset[i] != 0) leafset[j++] = leafset[i]; nleafset = j; }
 
@@ -257,6 +269,25 @@ int main (int argc, char **argv) {
   if (read (ref_pipe[0], ref_probe, sizeof ref_probe - 1) <= 0) { fprintf (stderr, "no reference probe\n"); return 2; }
   if (vx_opt ("show-probe", 0)) fprintf (stderr, "%s", ref_probe);
 
+  const char *es = vx_opt ("elem", 0);
+  if (es) {
+    /* one explicit element: <kind>kind>...|->/<u|c>/<k>/<leaf>/<error|throw|none> */
+    char *d = strdup (es), *save = 0;
+    char *path = strtok_r (d, "/", &save), *vv = strtok_r (0, "/", &save), *kk = strtok_r (0, "/", &save), *lf = strtok_r (0, "/", &save), *md = strtok_r (0, "/", &save);
+    if (!path || !vv || !kk || !lf || !md) { fprintf (stderr, "bad --elem\n"); return 2; }
+    shapes = calloc (1, sizeof *shapes); nshapes = 1;
+    if (strcmp (path, "-")) {
+      char *s2 = 0;
+      for (char *t = strtok_r (path, ">", &s2); t; t = strtok_r (0, ">", &s2)) {
+        int ki = vm_kind_index (t);
+        if (ki < 0 || shapes[0].depth >= VM_MAXDEPTH - 1) { fprintf (stderr, "bad kind %s\n", t); return 2; }
+        shapes[0].k[shapes[0].depth++] = ki;
+      }
+    }
+    single = 1; single_v = vv[0] == 'c'; single_k = atol (kk); single_leaf = atoi (lf);
+    inj_mode = !strcmp (md, "throw") ? VM_INJ_THROW : !strcmp (md, "error") ? VM_INJ_ERROR : VM_INJ_NONE;
+    if (inj_mode == VM_INJ_NONE) { part_sites = 1; vm_noinj_name = "genuine-error"; }
+  } else
   build_shapes ();
   meas = mmap (0, sizeof (meas_t) * (size_t) (nshapes + 1), PROT_READ | PROT_WRITE, MAP_SHARED | MAP_ANONYMOUS, -1, 0);
   {
@@ -287,11 +318,16 @@ int main (int argc, char **argv) {
   for (long s = 0; s < nshapes; s++) for (int v = 0; v < 2; v++) { cum[2 * s + v] = total; total += meas[s].n[v]; sumn += meas[s].n[v]; }
   cum[2 * nshapes] = total;
   if (part_sites) total = nshapes * 2L * nleafset;
+  if (single) total = 1;
   if (vx_opt ("list", 0)) {
     for (long s = 0; s < nshapes; s++) { char name[300]; vm_shape_name (shapes[s].k, shapes[s].depth, name, sizeof name); printf ("%ld %s N=%d/%d\n", s, name, meas[s].n[0], meas[s].n[1]); }
     return 0;
   }
   fprintf (stderr, "h_c05: part=%s mode=%s elements=%ld (sum of N over shapes x {uncaught,under-catch} = %ld)\n", part, inj_mode == VM_INJ_THROW ? "throw" : inj_mode == VM_INJ_ERROR ? "error" : "-", total, sumn);
+  vx_count_name (15, "failure_records_suppressed_as_duplicates");
+  vm_shared_init ();
   vx_set_enum (total, elem, describe);
-  return vx_run (argc, argv, 0);
+  int rc = vx_run (argc, argv, 0);
+  if (vx_opt ("out", 0)) { char kp[PATH_MAX]; snprintf (kp, sizeof kp, "%s.keys", vx_opt ("out", 0)); vm_write_key_totals (kp); }
+  return rc;
 }
